@@ -61,6 +61,15 @@ Theorem C09_routing_sound : forall P T, mk_backends P = Ok T -> forall mx o log 
 Proof. exact routing_sound. Qed.
 Print Assumptions C09_routing_sound.
 
+(* "every library backend when no URI restricts the request": search without URIs (or with an
+   empty list), get_distinct, refresh(None), the root directories, as_list, playlists.refresh(None)
+   ask every backend offering the provider *)
+Theorem C09_unrestricted_all_providers : forall P T mx o m flag log out,
+  mk_backends P = Ok T -> unrestricted_op o = Some (m, flag) -> run_op T P mx o = (log, out) ->
+  forall b, (exists s, owns flag P b s) -> exists a, In (Bk b, m, a) log.
+Proof. exact unrestricted_all_providers. Qed.
+Print Assumptions C09_unrestricted_all_providers.
+
 (* ---- T3: unknown schemes map to empty results *)
 Theorem C09_lookup_unknown_scheme_empty : forall P T us log m u,
   mk_backends P = Ok T -> lookup T P us = (log, Ok (VMap m)) ->
